@@ -70,12 +70,23 @@ def rule_round_trip(run, prog, rid="R-10.11"):
         for bs in ("\\", "??/"):
             for mid in ("", " ", "\t", "  ", "a"):
                 domain.append(ctx + bs + mid + "\nb")
+    # an escape whose second character is written as a digraph / trigraph (the whole spelling belongs to the escape)
+    for sp in list(tri) + list(di):
+        domain += ['"\\' + sp + '" x', "'\\" + sp + "'"]
+    # the characters no table knows, as the first character of the file (a byte order mark, a form feed, a control character ...):
+    # reported, never skipped
+    for first in "\ufeff\x0c\x0b\r\x00\x1a\u00a0\u2028@$`":
+        domain += [first, first + "a", first + first + "\n", " " + first]
     bad, n, unsupported, known = None, 0, None, 0
     for src in dict.fromkeys(domain):
+        if "\\\\\n" in src or "\\??/\n" in src or "??/??/\n" in src or "??/\\\n" in src:
+            continue                              # two backslashes and a newline: an escaped backslash, or a splice (DESIGN §6)
         n += 1
         try:
             sim = LexerSim(prog, src, max_steps=200000)
             start, nerr = 0, 0
+            if sim.pos != 0 and bad is None:
+                bad = (src, src[:sim.pos], src[:sim.pos], "", 0, "nothing yet: the constructor has moved the cursor")
             for _ in range(len(src) + 2):
                 out = sim.call("get_next_token")
                 if out.kind != "ok":
